@@ -6,6 +6,13 @@ For every cell type: basix geometry/topology (as FFCx's element_interface sees t
 geometry handler indexes its table (obtained by calling the real handler on a probe terminal).
 
 Only Lean *data* is written.  The file is replaced atomically and only when its content changed.
+
+A table writer / access handler that raises is recorded as `none` / `accepted := false` in the
+Lean data AND in `FAILURES` (which pair, at which stage, which exception): `harness/props/c02.py`
+compares that list with the absences expected on the pinned tree (`EXPECTED_ABSENT`) and reports
+any other one — a writer that starts raising, or a probe of this module that no longer fits FFCx's
+API, would otherwise silently turn the guarded parts of the `decide` theorems vacuous
+(`Ffcx.C02.refgeom_nonvacuous` is the Lean-side guard).
 """
 import os
 from fractions import Fraction
@@ -46,6 +53,58 @@ ACCESS = {
 }
 
 
+# (kind, cell, table, stage, exception type, message) of every writer/handler that raised in the last render()
+FAILURES: list[tuple[str, str, str, str, str, str]] = []
+# notes about the shape of the emitted data (e.g. a nested reference_facet_edge_vectors table that was flattened)
+SHAPE_NOTES: list[str] = []
+
+# Absences on the pinned tree: (kind, cell, table) -> (stage, exception type).  "table": geometry.write_table raises;
+# "access": the access.py handler (stage "handler") or the construction of the UFL terminal (stage "terminal") raises.
+EXPECTED_ABSENT = {
+    ("table", "interval", "cell_facet_jacobian"): ("write_table", "RuntimeError"),
+    ("table", "interval", "cell_ridge_jacobian"): ("write_table", "RuntimeError"),
+    ("table", "interval", "reference_facet_edge_vectors"): ("write_table", "ValueError"),
+    ("table", "interval", "facet_edge_vertices"): ("write_table", "ValueError"),
+    ("table", "triangle", "cell_ridge_jacobian"): ("write_table", "RuntimeError"),
+    ("table", "triangle", "reference_facet_edge_vectors"): ("write_table", "ValueError"),
+    ("table", "triangle", "facet_edge_vertices"): ("write_table", "ValueError"),
+    ("table", "quadrilateral", "cell_ridge_jacobian"): ("write_table", "RuntimeError"),
+    ("table", "quadrilateral", "reference_facet_edge_vectors"): ("write_table", "ValueError"),
+    ("table", "quadrilateral", "facet_edge_vertices"): ("write_table", "ValueError"),
+    ("table", "prism", "reference_facet_volume"): ("write_table", "ValueError"),
+    ("table", "prism", "facet_edge_vertices"): ("write_table", "ValueError"),
+    ("table", "pyramid", "reference_facet_volume"): ("write_table", "ValueError"),
+    ("table", "pyramid", "facet_edge_vertices"): ("write_table", "ValueError"),
+    ("access", "interval", "cell_facet_jacobian"): ("terminal", "ValueError"),
+    ("access", "interval", "cell_ridge_jacobian"): ("terminal", "ValueError"),
+    ("access", "interval", "reference_cell_edge_vectors"): ("handler", "RuntimeError"),
+    ("access", "interval", "reference_facet_edge_vectors"): ("terminal", "ValueError"),
+    ("access", "triangle", "cell_ridge_jacobian"): ("handler", "RuntimeError"),
+    ("access", "triangle", "reference_facet_edge_vectors"): ("terminal", "ValueError"),
+    ("access", "quadrilateral", "cell_ridge_jacobian"): ("handler", "RuntimeError"),
+    ("access", "quadrilateral", "reference_facet_edge_vectors"): ("terminal", "ValueError"),
+    ("access", "quadrilateral", "facet_orientation"): ("handler", "RuntimeError"),
+    ("access", "hexahedron", "facet_orientation"): ("handler", "RuntimeError"),
+    **{("access", "prism", t): ("handler", "RuntimeError") for t in (
+        "reference_normals", "reference_cell_volume", "reference_facet_volume", "reference_cell_edge_vectors",
+        "reference_facet_edge_vectors", "facet_orientation")},
+    **{("access", "pyramid", t): ("handler", "RuntimeError") for t in (
+        "reference_normals", "cell_ridge_jacobian", "reference_cell_volume", "reference_facet_volume",
+        "reference_cell_edge_vectors", "reference_facet_edge_vectors", "facet_orientation")},
+}
+
+
+def unexpected_failures():
+    """Failures of the last render() that are not the expected absences of the pinned tree (same pair, same stage,
+    same exception type)."""
+    out = []
+    for kind, cell, table, stage, exc, msg in FAILURES:
+        if EXPECTED_ABSENT.get((kind, cell, table)) != (stage, exc):
+            out.append({"kind": kind, "cell": cell, "table": table, "stage": stage, "exception": exc, "message": msg,
+                        "expected": EXPECTED_ABSENT.get((kind, cell, table))})
+    return out
+
+
 def frac(x) -> Fraction:
     f = Fraction(float(x))
     return f if f != 0 else Fraction(0)
@@ -77,10 +136,17 @@ def table_values(name, cell):
     """Output of geometry.write_table, or None when the writer raises."""
     try:
         decl = geometry.write_table(name, cell)
-    except Exception:
+    except Exception as ex:  # noqa: BLE001 - recorded, compared with EXPECTED_ABSENT by c02.py
+        FAILURES.append(("table", cell, name, "write_table", type(ex).__name__, str(ex)[:160]))
         return None
     if isinstance(decl, L.ArrayDecl):
-        return np.asarray(decl.values)
+        v = np.asarray(decl.values)
+        if name == "reference_facet_edge_vectors" and v.ndim == 3:
+            # a table nested [facet][edge][component] (the shape a repair of the known finding would emit) is recorded in
+            # the flat facet-by-facet layout of the schema; `rfevRow` of FfcxProofs/C02.lean addresses it
+            SHAPE_NOTES.append(f"reference_facet_edge_vectors of {cell} is nested {list(v.shape)}: flattened")
+            v = v.reshape(v.shape[0] * v.shape[1], v.shape[2])
+        return v
     return decl.value.value if isinstance(decl.value, L.LExpr) else decl.value
 
 
@@ -101,14 +167,19 @@ def access_info(table, cell):
     """(accepted, usesEntity, rank) of the access.py handler for `table` on `cell`."""
     hname, tname, comp = ACCESS[table]
     tdim = len(basix.topology(getattr(basix.CellType, cell))) - 1
+    stage = "mesh"
     try:
         mesh = ufl.Mesh(basix.ufl.element("P", cell, 1, shape=(max(tdim, 1),)))
+        stage = "terminal"
         term = getattr(ufl.geometry, tname)(mesh)
         mt = SimpleNamespace(terminal=term, restriction="-", component=comp, flat_component=0,
                              averaged=None, local_derivatives=(), global_derivatives=())
+        stage = "backend"
         acc = FFCXBackendAccess("facet", "interior_facet", FFCXBackendSymbols({}, {}, {}), {})
+        stage = "handler"
         e = getattr(acc, hname)(mt, None, None)
-    except Exception:
+    except Exception as ex:  # noqa: BLE001 - recorded, compared with EXPECTED_ABSENT by c02.py
+        FAILURES.append(("access", cell, table, stage, type(ex).__name__, str(ex)[:160]))
         return (False, False, 0)
     rank = len(e.indices) if isinstance(e, L.ArrayAccess) else 0
     return (True, _has_entity_index(e), rank)
@@ -161,6 +232,8 @@ def cell_record(cell) -> str:
 
 
 def render() -> str:
+    FAILURES.clear()
+    SHAPE_NOTES.clear()
     parts = [
         "/-",
         "GENERATED by harness/extract_geom.py from the working tree of /repo -- DO NOT EDIT.",
